@@ -64,32 +64,44 @@ class Br:
 
 
 class Frame:
-    __slots__ = ("env", "fid", "retk", "stack", "vpats", "effects")
+    __slots__ = ("env", "fid", "retk", "stack", "vpats", "effects", "brk", "cont")
 
-    def __init__(self, env: dict, fid: int, retk, stack: tuple, vpats: tuple, effects: tuple = ()):
+    def __init__(self, env: dict, fid: int, retk, stack: tuple, vpats: tuple, effects: tuple = (), brk=None, cont=None):
         self.env = env
         self.fid = fid
         self.retk = retk
         self.stack = stack
         self.vpats = vpats
         self.effects = effects
+        self.brk = brk          # continuations of the innermost enclosing loop
+        self.cont = cont
 
     def bind(self, lid: int, v: Any) -> "Frame":
         e = dict(self.env)
         e[lid] = v
-        return Frame(e, self.fid, self.retk, self.stack, self.vpats, self.effects)
+        return Frame(e, self.fid, self.retk, self.stack, self.vpats, self.effects, self.brk, self.cont)
 
     def with_vpat(self, vp) -> "Frame":
-        return Frame(self.env, self.fid, self.retk, self.stack, self.vpats + (vp,), self.effects)
+        return Frame(self.env, self.fid, self.retk, self.stack, self.vpats + (vp,), self.effects, self.brk, self.cont)
 
     def with_effect(self, e: Any) -> "Frame":
-        return Frame(self.env, self.fid, self.retk, self.stack, self.vpats, self.effects + (e,))
+        return Frame(self.env, self.fid, self.retk, self.stack, self.vpats, self.effects + (e,), self.brk, self.cont)
+
+    def in_loop(self, brk, cont) -> "Frame":
+        return Frame(self.env, self.fid, self.retk, self.stack, self.vpats, self.effects, brk, cont)
 
     def carry(self, inner: "Frame") -> "Frame":
-        """self's bindings with the path facts (matched patterns, effects) of inner."""
-        if inner.vpats == self.vpats and inner.effects == self.effects:
+        """self's bindings -- with the values inner *assigned* to them -- and the path facts (matched patterns, effects) of
+        inner; bindings introduced inside inner's scope are dropped."""
+        env = self.env
+        if inner.env is not self.env:
+            changed = {k: inner.env[k] for k in self.env if k in inner.env and inner.env[k] is not self.env[k]}
+            if changed:
+                env = dict(self.env)
+                env.update(changed)
+        if env is self.env and inner.vpats == self.vpats and inner.effects == self.effects:
             return self
-        return Frame(self.env, self.fid, self.retk, self.stack, inner.vpats, inner.effects)
+        return Frame(env, self.fid, self.retk, self.stack, inner.vpats, inner.effects, self.brk, self.cont)
 
 
 CF_KINDS = {"if", "match", "ret", "let", "semi", "expr_stmt", "loop", "break", "continue", "assign", "assign_op", "let_expr"}
@@ -270,6 +282,10 @@ class Builder:
         if n is not None:
             return n
         v = peel(v)
+        if isinstance(v, dict) and v.get("k") == "mcall" and v.get("name") == "len" and not v.get("args"):
+            arr = self.array_of(v.get("recv"))
+            if arr is not None:
+                return len(arr["elems"])
         if isinstance(v, dict) and v.get("k") == "bin" and v.get("op") in ("+", "-", "*", "/", "%", "<<", ">>", "&", "|", "^"):
             a, b = self.int_value(v["l"]), self.int_value(v["r"])
             if a is not None and b is not None:
@@ -403,11 +419,57 @@ class Builder:
             return self.build(e["e"], fr, q)
         if k == "bin" and e.get("op") in ("&&", "||"):
             return self.build_cond(e, fr, lambda f1: kont({"k": "lit", "ty": "bool", "v": True}, f1), lambda f1: kont({"k": "lit", "ty": "bool", "v": False}, f1))
-        if k in ("semi", "expr_stmt", "let", "let_expr", "loop", "break", "continue", "assign", "assign_op"):
+        if k == "loop":
+            return self.build_loop(e, fr, kont, 0)
+        if k == "break":
+            if fr.brk is None:
+                raise Unrecognised("`break` outside a loop the normaliser entered", e)
+            if e.get("e") is None:
+                return fr.brk(UNIT, fr)
+            return self.build(e["e"], fr, lambda v, f1: f1.brk(v, f1))
+        if k == "continue":
+            if fr.cont is None:
+                raise Unrecognised("`continue` outside a loop the normaliser entered", e)
+            return fr.cont(fr)
+        if k in ("assign", "assign_op"):
+            tgt = H.strip(e["l"])
+            if not (isinstance(tgt, dict) and tgt.get("k") == "local" and tgt.get("id") in fr.env):
+                raise Unrecognised("assignment to something other than a `let mut` local of the function", e)
+
+            def store(v, f1):
+                if k == "assign_op":
+                    cur = self.int_value(f1.env[tgt["id"]])
+                    rhs = self.int_value(v)
+                    if cur is None or rhs is None:
+                        raise Unrecognised("compound assignment on a value that is not a known integer", e)
+                    nv = _arith(e["op"].rstrip("="), cur, rhs)
+                    if nv is None:
+                        raise Unrecognised("compound assignment `%s` not evaluated" % e["op"], e)
+                    v = {"k": "lit", "ty": "int", "v": str(abs(nv)), "neg": nv < 0}
+                return kont(UNIT, f1.bind(tgt["id"], v))
+            return self.build(e["r"], fr, store)
+        if k in ("semi", "expr_stmt", "let", "let_expr"):
             raise Unrecognised("statement form `%s` in expression position" % k, e)
         # generic: evaluate children left to right, rebuild the node
         slots = _slots(e)
         return self.build_children(e, slots, 0, [], fr, kont)
+
+    MAX_ITER = 700
+
+    def build_loop(self, e: dict, fr: Frame, kont, it: int) -> Any:
+        """A loop whose control conditions become constants under substitution (a counter over a table of known size) is
+        unrolled; anything else hits the iteration bound and stays unrecognised."""
+        if it > self.MAX_ITER:
+            raise Unrecognised("loop not unrolled within %d iterations" % self.MAX_ITER, e)
+        outer_brk, outer_cont = fr.brk, fr.cont
+
+        def after(v, f1):
+            return kont(v, f1.in_loop(outer_brk, outer_cont))
+
+        def again(f1):
+            return self.build_loop(e, f1.in_loop(outer_brk, outer_cont), kont, it + 1)
+        f_in = fr.in_loop(after, again)
+        return self.build(e["body"], f_in, lambda _v, f1: again(fr.carry(f1)))
 
     def build_children(self, e: dict, slots: list, i: int, acc: list, fr: Frame, kont) -> Any:
         if i == len(slots):
